@@ -648,6 +648,9 @@ class Fn:
             # the payload (or no value at all)
             v = "Some" if p.startswith("std::option::Option::") else "Ok"
             return self._op_origins(cs.args[0], (("variant", v), ("field", 0)) + tuple(steps), visiting)
+        if cs.name == "or" and p.startswith(("std::option::Option::", "std::result::Result::")) and len(cs.args) == 2:
+            # `a.or(b)`: one of the two values, unchanged
+            return self._op_origins(cs.args[0], steps, visiting) | self._op_origins(cs.args[1], steps, visiting)
         if cs.name in ("unwrap_or", "unwrap_or_default") and p.startswith(("std::option::Option::", "std::result::Result::")) and cs.args:
             # the payload, or the fallback
             v = "Some" if p.startswith("std::option::Option::") else "Ok"
